@@ -1,5 +1,6 @@
 import IrefVerif.Lemmas.ValidWF
 import IrefVerif.Lemmas.SetterEqs
+import IrefVerif.Lemmas.ResolveEmpty
 
 /-!
 # C05 — component setters change exactly the targeted component
@@ -90,6 +91,12 @@ theorem model_set_fragment (v : Option Text) :
 theorem model_set_scheme_some (s : Text) :
     Ref.set_scheme w (some s) = some (recompose { split w with scheme := some s }) := by
   have := set_scheme_some_recompose (split w) (split_valid G ok w h).2 s
+  rwa [Lemmas.recompose_split] at this
+
+/-- `UriBuf::set_scheme` / `IriBuf::set_scheme` (the scheme is mandatory there) -/
+theorem model_set_scheme_full (s0 : Text) (hs0 : (split w).scheme = some s0) (s : Text) :
+    Ref.set_scheme_full w s = some (recompose { split w with scheme := some s }) := by
+  have := set_scheme_full_recompose (split w) (split_valid G ok w h).2 s0 hs0 s
   rwa [Lemmas.recompose_split] at this
 
 theorem model_set_scheme_none :
